@@ -165,6 +165,14 @@ TWINS = [
     ('isvector-row-or', 'C15', 'base/argcheck.py', 'or (s[0] == 1 and s[1] > 0)', 'or (s[0] == 1 or s[1] > 0)', 'R4', 'isvector'),
     ('getvector-array-without-dtype', 'C15', 'base/argcheck.py', "        elif out == 'array':\n            return np.array(v, dtype=dt)", "        elif out == 'array':\n            return np.array(v)", 'R10g', 'getvector'),
     ('getunit-inverse-factor', 'C15', 'base/argcheck.py', '            return v * math.pi / 180', '            return v * 180 / math.pi', 'R10g', 'getunit'),
+    ('unitvec-norm-squared-threshold', 'C03', 'base/vectors.py', "    n = np.linalg.norm(v)\n\n    if n > 100 * _eps:  # if greater than eps\n        return (v / n, n)", "    nsq = normsq(v)\n\n    if nsq > 100 * _eps:  # if greater than eps\n        n = math.sqrt(nsq)\n        return (v / n, n)", 'R7', 'unitvec_norm'),
+    ('uq-mul-delegates-swapped', 'C06', 'quaternion.py', '            return right.__class__(left.binop(right, base.qqmul))', '            return Quaternion.__mul__(right, left) if type(right) is Quaternion else right.__class__(left.binop(right, base.qqmul))', 'R7o', 'UnitQuaternion.__mul__'),
+    ('getvector-returns-unconverted', 'C13', 'base/argcheck.py', "        elif out == 'array':\n            return v.astype(dt)", "        elif out == 'array':\n            return v", 'R10g', 'getvector'),
+    ('scalartypes-without-numpy', 'C18', 'base/argcheck.py', '_scalartypes = (int, np.integer, float, np.floating) + sym.symtype', '_scalartypes = (int, float) + sym.symtype', 'R10g', '_scalartypes'),
+    ('isvector-rejects-object-dtype', 'C16', 'base/argcheck.py', "    if isinstance(v, np.ndarray):\n        s = v.shape\n        if dim is None:", "    if isinstance(v, np.ndarray):\n        if v.dtype.kind not in 'iuf':\n            return False\n        s = v.shape\n        if dim is None:", 'R4', 'isvector'),
+    ('getitem-reslice-normalised', 'C10', 'smuserlist.py', 'return self.__class__([self.data[k] for k in range(*i.indices(len(self)))])', 'return self.__class__(self.data[slice(*i.indices(len(self)))])', 'RL', '__getitem__'),
+    ('twist-unit-fast-path', 'C14', 'twist.py', '        if self.N == 2:\n            return Twist2(base.unittwist2(self.S))', '        if len(self) == 1 and self.isunit:\n            return self.__class__(self)\n        if self.N == 2:\n            return Twist2(base.unittwist2(self.S))', 'R16', 'SMTwist.unit'),
+    ('setitem-isinstance-c07', 'C07', 'smuserlist.py', "        if not type(self) == type(value):\n            raise ValueError(\"can't insert different type of object\")", "        if not isinstance(value, type(self)):\n            raise ValueError(\"can't insert different type of object\")", 'RL', '__setitem__'),
     ('cross-entry', 'C13', 'base/vectors.py', '        u[2] * v[0] - u[0] * v[2],', '        u[0] * v[2] - u[2] * v[0],', 'R16', 'cross'),
     ('tr2jac-notranspose', 'C13', 'base/transforms3d.py', '        return np.block([[R.T, Z], [Z, R.T]])', '        return np.block([[R, Z], [Z, R]])', 'R16', 'tr2jac'),
     # ---- C14
